@@ -5,9 +5,14 @@ import json, os, glob
 V = os.path.dirname(os.path.dirname(os.path.abspath(__file__)))
 props = [json.loads(l)['id'] for l in open(os.path.join(V, 'properties.jsonl'))]
 checks = []
+enabled = set(open(os.path.join(V, 'manifest.d', 'enabled.txt')).read().split())
 for p in props:
     f = os.path.join(V, 'manifest.d', p + '.json')
-    if os.path.exists(f): checks.append(json.load(open(f)))
+    if os.path.exists(f) and p in enabled:
+        c = json.load(open(f))
+        if c.get('property_id') != p or not os.path.exists(os.path.join(V, 'py', 'props', p.lower() + '.py')):
+            print('skipping inconsistent/unfinished fragment', f); continue
+        checks.append(c)
 na_file = os.path.join(V, 'manifest.d', 'not_applicable.json')
 reasons = json.load(open(na_file)) if os.path.exists(na_file) else {}
 claimed = {c['property_id'] for c in checks}
